@@ -122,7 +122,15 @@ impl StringPoolBuilder {
         for (length, refcount) in self.lengths_and_refcounts.into_iter() {
             let mut buffer = vec![0u8; length as usize];
             reader.read_exact(&mut buffer)?;
-            strings.push((self.codepage.decode(&buffer), refcount));
+            // An entry with a zero refcount is unused, whatever text the file
+            // still holds for it; the rest of this module relies on unused
+            // entries being empty (see `incref`).
+            let string = if refcount == 0 {
+                String::new()
+            } else {
+                self.codepage.decode(&buffer)
+            };
+            strings.push((string, refcount));
         }
         Ok(StringPool {
             codepage: self.codepage,
